@@ -831,7 +831,12 @@ def _exec_shared_step(run):
                     run.violate(scope, "regroup_mixes_instances", f"max over max_reward[{b}] is {float(mr[b].max())!r}, the "
                                 f"best own rollout has {best!r}", constraint="max_reward_value", instance=b, **det)
                     raise StopRun()
-            bma = out["best_multistart_actions"].detach().reshape(B, -1, 3)
+            bma = out["best_multistart_actions"].detach()
+            if bma.numel() % (B * 3) != 0:
+                run.violate(scope, "best_actions_shape", f"best_multistart_actions has shape {tuple(bma.shape)}: not "
+                            f"{B} x groups x 3 actions", constraint="best_multistart_actions", **det)
+                raise StopRun()
+            bma = bma.reshape(B, -1, 3)
             shape_ok = bma.shape[1] == mr.shape[1]
             if not shape_ok:
                 run.violate(scope, "best_actions_shape", f"best_multistart_actions has shape "
@@ -861,6 +866,10 @@ def _exec_shared_step(run):
                                 f"{best!r}", constraint="max_aug_reward", instance=b, **det)
                     raise StopRun()
             if baa is not None:
+                if baa.numel() % (B * 3) != 0:
+                    run.violate(scope, "best_actions_shape", f"best_aug_actions has shape {tuple(baa.shape)}: not "
+                                f"{B} x 3 actions (one best rollout per instance)", constraint="best_aug_actions", **det)
+                    raise StopRun()
                 seqs = baa.detach().reshape(B, -1, 3)
                 if seqs.shape[1] != 1:
                     run.violate(scope, "best_actions_shape", f"best_aug_actions has shape {tuple(baa.shape)}: "
